@@ -30,6 +30,32 @@ type vfOp struct {
 	msg  map[string]interface{}
 }
 
+// vfFlipperSpec: a machine without memory that alternates between two nodes on
+// every message it is shown and emits what the message tells it to - so within
+// one processed message it can leave a state and come back to exactly it.
+func vfFlipperSpec() *core.Spec {
+	js := `var m = _.bindings["?m"]; var mid = _.props.mid;
+if (m && typeof m === "object") { var emits = (m.emit && m.emit[mid]) || []; for (var i = 0; i < emits.length; i++) { _.out(emits[i]); } }
+return {};`
+	node := func(next string) *core.Node {
+		return &core.Node{ActionSource: &core.ActionSource{Interpreter: "ecmascript", Source: js},
+			Branches: &core.Branches{Type: "bindings", Branches: []*core.Branch{{Target: next}}}}
+	}
+	wait := func(next string) *core.Node {
+		return &core.Node{Branches: &core.Branches{Type: "message", Branches: []*core.Branch{{Pattern: "?m", Target: next}}}}
+	}
+	return &core.Spec{Name: "flipper", Nodes: map[string]*core.Node{
+		"start": wait("toB"), "toB": node("other"), "other": wait("toA"), "toA": node("start"),
+	}}
+}
+
+func vfFlipperJSON() interface{} {
+	b, _ := json.Marshal(vfFlipperSpec())
+	var x interface{}
+	json.Unmarshal(b, &x)
+	return x
+}
+
 func vfSpecJSON(version int) interface{} {
 	b, _ := json.Marshal(vfRecorderSpecV(false, version))
 	var x interface{}
@@ -158,7 +184,7 @@ func runC15(c *sim.Ctx, t *testing.T) {
 	var ops []vfOp
 	for i := 0; i < nops; i++ {
 		mid := mids[c.Intn(len(mids), "opmid")]
-		k := c.Intn(11, "opkind")
+		k := c.Intn(13, "opkind")
 		switch {
 		case !exists[mid] && k < 6, k == 0, k == 4:
 			version := 1 + c.Intn(2, "version")
@@ -181,6 +207,23 @@ func runC15(c *sim.Ctx, t *testing.T) {
 		case k == 3:
 			ops = append(ops, vfOp{kind: "delete", mid: mid, msg: map[string]interface{}{"to": "captain", "delete": []interface{}{mid}}})
 			exists[mid] = false
+		case k == 7, k == 11:
+			// a flipper machine, and a message that makes it leave its state and return to it in one round
+			fid := "f" + mid
+			if !exists[fid] {
+				ops = append(ops, vfOp{kind: "create", mid: fid, msg: map[string]interface{}{"to": "captain", "update": map[string]interface{}{fid: map[string]interface{}{"spec": map[string]interface{}{"inline": vfFlipperJSON()}}}}})
+				exists[fid] = true
+			}
+			hops := 1 + c.Intn(3, "flips")
+			var chain map[string]interface{}
+			for h := 0; h < hops; h++ {
+				m := map[string]interface{}{"to": fid, "id": fmt.Sprintf("flip%d.%d", i, h)}
+				if chain != nil {
+					m["emit"] = map[string]interface{}{fid: []interface{}{chain}}
+				}
+				chain = m
+			}
+			ops = append(ops, vfOp{kind: "flip", mid: fid, msg: chain})
 		case k == 6 && exists[mid]:
 			// within one processed message: a machine tells the captain to delete a
 			// machine and then to create it again (or the other way round)
@@ -226,6 +269,9 @@ func runC15(c *sim.Ctx, t *testing.T) {
 				v := "v1"
 				if strings.Contains(txt, `\"v\": 2`) {
 					v = "v2"
+				}
+				if strings.Contains(txt, `"name":"flipper"`) {
+					v = "flipper"
 				}
 				k := strings.Index(txt[j:], `"type":"message"}}}}`)
 				if k > 0 {
